@@ -386,6 +386,7 @@ Definition scripts_ok (scripts : list script) : bool := forallb (forallb shape_o
 
 (* what buggy apis would look like *)
 Definition buggy_newnode_recycle : script := [HGet 0; HReturnDirect 0; HPut 0].                  (* NewNode* with `defer p.Recycle()` on a protocol that lost its borrowed mark *)
+Definition buggy_marshalto_alias : script := [HGet 0; HBorrow 6; HReturnDirect 6; HPut 0].  (* MarshalTo returns the source value's own bytes when nothing was cut *)
 Definition buggy_httpconv_append : script := [HGet 0; HBorrow 5; HReturnDirect 5; HPut 0].       (* result = append(h.top, body...) into the converter's own header array *)
 Definition buggy_return_direct : script := [HGet 0; HReturnDirect 0; HPut 0].                    (* t2j.Do without the copy *)
 Definition buggy_j2p_leak_fix : script := [HGet 0; HGet 3; HGet 1; HPut 3; HPutKeep 1; HMove 0 1; HCopyOut 0; HPut 0].
